@@ -202,3 +202,9 @@ def template_class(tpl):
     """classes a template's secret position can carry (any class is syntactically fine except where the line form fixes it)"""
     t, sample = tpl
     return classify(sample)
+
+
+def sample(case, out, k=0):
+    """a (line, implementation output line) pair for the evidence file; tolerant of RAISED / short outputs"""
+    ls = outlines(out)
+    return {"line": case[11 + k] if len(case) > 11 + k else None, "impl": ls[k][:300] if k < len(ls) else out[:120]}
